@@ -159,7 +159,7 @@ impl Scenario for Session {
             chunk: *rng.pick(&[1usize, 3, 7, 64, 4096]),
             cut_to_sut: cut(rng),
             cut_from_sut: cut(rng),
-            local_fault: if rng.chance(1, 3) { Some((rng.urange(0, if flat { 9 } else { 4 }), rng.below(3) as u8)) } else { None },
+            local_fault: if rng.chance(1, 3) { Some((rng.urange(0, if flat { 9 } else { 4 }), rng.below(4) as u8)) } else { None },
             accept: if rng.chance(3, 4) { 0 } else { rng.range(1, 3) as u8 },
             sut_doc_known: rng.chance(9, 10),
             sut_sync: rng.chance(9, 10),
@@ -441,6 +441,9 @@ async fn run(plan: &SessionPlan, cx: &mut Cx) -> Res {
     let mut idle = 0;
     let mut fault_done = false;
     let mut returned_store: Option<iroh_docs::store::Store> = None;
+    // a shutdown that was queued but not awaited: the session's next request lands behind it
+    let mut queue_shutdown = false;
+    let mut pending_shutdown: Option<std::pin::Pin<Box<dyn std::future::Future<Output = anyhow::Result<iroh_docs::store::Store>>>>> = None;
     let mut cut_to_done = false;
     let mut cut_from_done = false;
     let mut rounds = 0;
@@ -510,9 +513,12 @@ async fn run(plan: &SessionPlan, cx: &mut Cx) -> Res {
                                     let _ = sut_handle.set_sync(ns, false).await;
                                     cx.fault("local_sync_disabled_mid_session");
                                 }
-                                _ => {
+                                2 => {
                                     returned_store = sut_handle.shutdown().await.ok();
                                     cx.fault("local_actor_shutdown_mid_session");
+                                }
+                                _ => {
+                                    queue_shutdown = true;
                                 }
                             }
                             cx.ev("local-fault", format!("{kind} before frame {delivered_frames}"));
@@ -527,6 +533,26 @@ async fn run(plan: &SessionPlan, cx: &mut Cx) -> Res {
                         }
                     }
                     p2s.release(rel);
+                    if queue_shutdown {
+                        queue_shutdown = false;
+                        // The frame is released first (the session task is woken first), then the
+                        // shutdown is put into the actor's inbox without waiting for it: the
+                        // session reads the frame and sends its next request into the inbox
+                        // behind the shutdown before the actor gets to run.
+                        {
+                            {
+                                    let h2 = sut_handle.clone();
+                                    let mut fut: std::pin::Pin<Box<dyn std::future::Future<Output = anyhow::Result<iroh_docs::store::Store>>>> = Box::pin(async move { h2.shutdown().await });
+                                    let waker = futures_noop_waker();
+                                    let mut cxp = std::task::Context::from_waker(&waker);
+                                    match fut.as_mut().poll(&mut cxp) {
+                                        std::task::Poll::Ready(r) => returned_store = r.ok(),
+                                        std::task::Poll::Pending => pending_shutdown = Some(fut),
+                                    }
+                                    cx.fault("local_actor_shutdown_queued_ahead_of_session_request");
+                            }
+                        }
+                    }
                     to_sut_bytes += rel;
                     progressed = true;
                     if let Some(reset) = cut_now {
@@ -636,6 +662,12 @@ async fn run(plan: &SessionPlan, cx: &mut Cx) -> Res {
         }
     }
     // declined request: abort frame sent, store untouched
+    if let Some(fut) = pending_shutdown.take() {
+        match tokio::time::timeout(Duration::from_secs(30), fut).await {
+            Ok(r) => returned_store = r.ok(),
+            Err(_) => return Err(Violation::new("hang/shutdown", "a queued shutdown of the store actor got no reply within 30 virtual seconds".to_string())),
+        }
+    }
     let stop_store = match returned_store {
         Some(s) => Some(s),
         None => sut_node.stop().await.ok(),
@@ -696,6 +728,16 @@ async fn run(plan: &SessionPlan, cx: &mut Cx) -> Res {
         let _ = n.stop().await;
     }
     Ok(())
+}
+
+fn futures_noop_waker() -> std::task::Waker {
+    use std::task::{RawWaker, RawWakerVTable, Waker};
+    fn clone(_: *const ()) -> RawWaker {
+        RawWaker::new(std::ptr::null(), &VTABLE)
+    }
+    fn noop(_: *const ()) {}
+    static VTABLE: RawWakerVTable = RawWakerVTable::new(clone, noop, noop, noop);
+    unsafe { Waker::from_raw(RawWaker::new(std::ptr::null(), &VTABLE)) }
 }
 
 fn saw_init_delivered(script: &[Frame], delivered: usize, peer: &PeerKind) -> bool {
